@@ -1,8 +1,941 @@
-//! C19 — not built yet.
+//! C19 — audio arrives at exactly the configured rate and tracks the speaker bit.
+//! Real code: a real `Emulator` (sound on). Part A drives `wait_internal` and the ULA write through the
+//! hooks `verif_wait` / `verif_write_io(0x00FE, v)` on generated schedules and pops samples with
+//! `next_audio_sample` under three host policies (always / sometimes / never drain); everything popped
+//! is compared with the Lean mixer model, and the spec adjudicates (per-frame count, queue bound,
+//! speaker level per sample within one sample period, amplitude bound). Part B runs real Z80 programs
+//! through `emulate_frames` (FrameCount(1)) and drains after every call. Part C: AY sounding.
+use crate::host::*;
 use crate::util::*;
+use std::panic::{catch_unwind, AssertUnwindSafe};
 
-pub fn run(_o: &Opts) -> Report {
+const RATES: [usize; 7] = [8000, 11025, 22050, 44100, 48000, 96000, 384000];
+
+#[derive(Clone, Debug, PartialEq)]
+enum Ev {
+    Wait(usize),
+    Out(u8),
+    Pop(usize),
+    Drain,
+}
+
+#[derive(Clone, Copy, Debug, PartialEq)]
+enum Policy {
+    Always,
+    Sometimes,
+    Never,
+}
+
+#[derive(Clone, Debug, PartialEq)]
+struct Case {
+    m128: bool,
+    rate: usize,
+    vol: u8,
+    beeper: bool,
+    ay: bool,
+    policy: Policy,
+    evs: Vec<Ev>,
+}
+
+impl Case {
+    fn text(&self) -> String {
+        format!(
+            "sched m128={} rate={} vol={} beeper={} ay={} policy={} evs={}",
+            self.m128 as u8,
+            self.rate,
+            self.vol,
+            self.beeper as u8,
+            self.ay as u8,
+            match self.policy {
+                Policy::Always => "always",
+                Policy::Sometimes => "sometimes",
+                Policy::Never => "never",
+            },
+            if self.evs.is_empty() {
+                "-".to_string()
+            } else {
+                self.evs
+                    .iter()
+                    .map(|e| match e {
+                        Ev::Wait(n) => format!("w{}", n),
+                        Ev::Out(v) => format!("o{:02x}", v),
+                        Ev::Pop(n) => format!("p{}", n),
+                        Ev::Drain => "d".to_string(),
+                    })
+                    .collect::<Vec<_>>()
+                    .join(",")
+            }
+        )
+    }
+    fn parse(s: &str) -> Option<Case> {
+        let mut it = s.split_whitespace();
+        if it.next()? != "sched" {
+            return None;
+        }
+        let mut c = Case { m128: false, rate: 44100, vol: 100, beeper: true, ay: false, policy: Policy::Always, evs: vec![] };
+        for kv in it {
+            let (k, v) = kv.split_once('=')?;
+            match k {
+                "m128" => c.m128 = v == "1",
+                "rate" => c.rate = v.parse().ok()?,
+                "vol" => c.vol = v.parse().ok()?,
+                "beeper" => c.beeper = v == "1",
+                "ay" => c.ay = v == "1",
+                "policy" => {
+                    c.policy = match v {
+                        "always" => Policy::Always,
+                        "sometimes" => Policy::Sometimes,
+                        _ => Policy::Never,
+                    }
+                }
+                "evs" => {
+                    for t in v.split(',') {
+                        if t == "-" || t.is_empty() {
+                            continue;
+                        }
+                        let (h, r) = t.split_at(1);
+                        c.evs.push(match h {
+                            "w" => Ev::Wait(r.parse().ok()?),
+                            "o" => Ev::Out(u8::from_str_radix(r, 16).ok()?),
+                            "p" => Ev::Pop(r.parse().ok()?),
+                            _ => Ev::Drain,
+                        });
+                    }
+                }
+                _ => return None,
+            }
+        }
+        Some(c)
+    }
+    fn frame_len(&self) -> usize {
+        if self.m128 {
+            70908
+        } else {
+            69888
+        }
+    }
+    fn cfg(&self) -> Cfg {
+        let mut c = Cfg::new(self.m128);
+        c.sound = true;
+        c.rate = self.rate;
+        c.volume = self.vol;
+        c.beeper = self.beeper;
+        c.ay = self.ay;
+        c
+    }
+}
+
+struct Disagreement {
+    kind: Kind,
+    key: String,
+    what: String,
+    implementation: String,
+    expected: String,
+    at: Option<usize>,
+}
+
+fn dis(kind: Kind, key: &str, at: Option<usize>, what: String, imp: String, exp: String) -> Disagreement {
+    Disagreement { kind, key: key.to_string(), what, implementation: imp, expected: exp, at }
+}
+
+/// `sample_count_for_frame_fraction(frame_pos())` as the code computes it (the f64 part that the Lean
+/// model takes as an input and whose assumed properties the driver checks on every value).
+fn pos_f64(spf: usize, fc: usize, l: usize) -> usize {
+    let val = fc as f64 / l as f64;
+    let val = if val > 1.0 { 1.0 } else { val };
+    if val >= 1.0 {
+        spf
+    } else {
+        (spf as f64 * val) as usize
+    }
+}
+
+/// the f32 the mixer produces for a beeper level (same operations as gen_sample)
+fn level_value(code: usize, vol: u8) -> f32 {
+    let mut s = 0.0f64;
+    if code & 2 != 0 {
+        s += 0.5;
+    }
+    if code & 1 != 0 {
+        s += 0.5 / 5.0;
+    }
+    s *= vol as f64 / 200.0;
+    s as f32
+}
+
+fn decode(left: f32, right: f32, vol: u8, beeper: bool) -> Option<usize> {
+    for code in 0..4 {
+        let v = if beeper { level_value(code, vol) } else { 0.0 };
+        if left.to_bits() == v.to_bits() && right.to_bits() == v.to_bits() {
+            return Some(code);
+        }
+    }
+    None
+}
+
+fn rle(codes: &[usize]) -> String {
+    if codes.is_empty() {
+        return "-".into();
+    }
+    let mut toks = vec![];
+    let mut cur = codes[0];
+    let mut n = 0usize;
+    for c in codes {
+        if *c == cur {
+            n += 1;
+        } else {
+            toks.push(format!("{}:{:x}", cur, n));
+            cur = *c;
+            n = 1;
+        }
+    }
+    toks.push(format!("{}:{:x}", cur, n));
+    toks.join(",")
+}
+
+/// total length of a run-length text, rendered as one run of level 0
+fn collapse(text: &str) -> String {
+    if text == "-" {
+        return "-".into();
+    }
+    let n: usize = text.split(',').filter_map(|t| t.split_once(':')).map(|(_, n)| usize::from_str_radix(n, 16).unwrap_or(0)).sum();
+    format!("0:{:x}", n)
+}
+
+fn level_code(v: u8) -> usize {
+    (if v & 0x10 != 0 { 2 } else { 0 }) + (if v & 0x08 != 0 { 1 } else { 0 })
+}
+
+/// Runs one schedule on the real emulator and on the model.
+fn check_case(model: &mut Model, c: &Case, mut rep: Option<&mut Report>) -> Option<Disagreement> {
+    let l = c.frame_len();
+    let spf = c.rate / 50;
+    let mut e = emu(&c.cfg());
+    let a = model.ask(&format!("new {:x} {:x} {}", spf, l, c.beeper as u8));
+    assert_eq!(a, "ok");
+    let mut fc = 0usize; // mirror of frame_clocks
+    let frames0 = e.verif_frames_count();
+    let mut lines: Vec<String> = vec![];
+    enum Chk {
+        None,
+        /// after the last wait of an event: cumulative frames and frame_clocks of the real machine
+        Wait { ev: usize, frames: usize, fc: usize },
+        Pop { ev: usize, codes: Vec<usize>, bad_value: Option<(f32, f32)>, spec: Option<String> },
+    }
+    let mut chks: Vec<Chk> = vec![];
+    // speaker timeline of the current frame, for the edge spec (always policy)
+    let mut frame_init = 0usize;
+    let mut cur_level = 0usize;
+    let mut frame_writes: Vec<(usize, usize)> = vec![];
+    let mut total_popped = 0usize;
+    let mut total_frames = 0usize;
+    let mut frames_with_writes = 0usize;
+
+    let pop_real = |e: &mut Emu, n: usize| -> (Vec<usize>, Option<(f32, f32)>) {
+        let mut codes = vec![];
+        let mut bad = None;
+        for _ in 0..n {
+            match e.next_audio_sample() {
+                None => break,
+                Some(s) => match decode(s.left, s.right, c.vol, c.beeper) {
+                    Some(code) => codes.push(code),
+                    None => {
+                        if bad.is_none() {
+                            bad = Some((s.left, s.right));
+                        }
+                        codes.push(9);
+                    }
+                },
+            }
+        }
+        (codes, bad)
+    };
+
+    for (i, ev) in c.evs.iter().enumerate() {
+        let mut waits: Vec<usize> = vec![];
+        let mut out: Option<u8> = None;
+        match ev {
+            Ev::Wait(n) => {
+                if catch_unwind(AssertUnwindSafe(|| e.verif_wait(*n))).is_err() {
+                    return Some(dis(Kind::SpecViolated, "C19/panic", Some(i), format!("wait_internal({}) panicked", n), "panic".into(), "no panic".into()));
+                }
+                waits.push(*n);
+            }
+            Ev::Out(v) => {
+                let t0 = e.verif_frame_clocks();
+                if catch_unwind(AssertUnwindSafe(|| e.verif_write_io(0x00FE, *v))).is_err() {
+                    return Some(dis(Kind::SpecViolated, "C19/panic", Some(i), "write_io(0xFE) panicked".into(), "panic".into(), "no panic".into()));
+                }
+                let t1 = e.verif_frame_clocks();
+                let total = if t1 >= t0 { t1 - t0 } else { t1 + l - t0 };
+                if !(4..=12).contains(&total) {
+                    return Some(dis(Kind::ModelMismatch, "C19/write-io-length", Some(i), "clocks taken by OUT to 0xFE".into(), format!("{}", total), "4..12 (1 + contention + 2 + 1)".into()));
+                }
+                // write_io: wait_internal(1); beeper.change_state; wait_internal(contention + 2); wait_internal(1)
+                waits = vec![1, total - 2, 1];
+                out = Some(*v);
+            }
+            Ev::Pop(n) => {
+                let (codes, bad) = pop_real(&mut e, *n);
+                total_popped += codes.len();
+                lines.push(format!("p {:x}", n));
+                chks.push(Chk::Pop { ev: i, codes, bad_value: bad, spec: None });
+            }
+            Ev::Drain => {
+                let (codes, bad) = pop_real(&mut e, usize::MAX);
+                total_popped += codes.len();
+                lines.push("d".into());
+                chks.push(Chk::Pop { ev: i, codes, bad_value: bad, spec: None });
+            }
+        }
+        // the frame that ended during this event: (level at its start, its writes)
+        let mut ended: Option<(usize, Vec<(usize, usize)>)> = None;
+        for (k, w) in waits.iter().enumerate() {
+            if k == 1 {
+                if let Some(v) = out {
+                    lines.push(format!("o {:x}", v));
+                    chks.push(Chk::None);
+                    cur_level = level_code(v);
+                    frame_writes.push((fc, cur_level));
+                }
+            }
+            let t = fc + w;
+            lines.push(format!("w {:x} {:x}", w, pos_f64(spf, t, l)));
+            if t >= l {
+                fc = t - l;
+                total_frames += 1;
+                if !frame_writes.is_empty() {
+                    frames_with_writes += 1;
+                }
+                ended = Some((frame_init, std::mem::take(&mut frame_writes)));
+                frame_init = cur_level;
+            } else {
+                fc = t;
+            }
+            if k + 1 == waits.len() {
+                chks.push(Chk::Wait { ev: i, frames: e.verif_frames_count() - frames0, fc: e.verif_frame_clocks() });
+            } else {
+                chks.push(Chk::None);
+            }
+        }
+        if let (Some((init, writes)), Policy::Always) = (ended, c.policy) {
+            // the always-drain host empties the queue as soon as it sees that a frame has ended
+            let (codes, bad) = pop_real(&mut e, usize::MAX);
+            total_popped += codes.len();
+            lines.push("d".into());
+            let line = format!(
+                "sf {:x} {:x} {} {} {}",
+                l,
+                spf,
+                init,
+                if writes.is_empty() { "-".to_string() } else { writes.iter().map(|(t, c)| format!("{:x}:{}", t, c)).collect::<Vec<_>>().join(",") },
+                rle(&codes)
+            );
+            chks.push(Chk::Pop { ev: i, codes, bad_value: bad, spec: Some(line) });
+        }
+    }
+    // drain at the very end so that the final queue is compared too
+    let (codes, bad) = pop_real(&mut e, usize::MAX);
+    let final_len = codes.len();
+    lines.push("d".into());
+    chks.push(Chk::Pop { ev: c.evs.len(), codes, bad_value: bad, spec: None });
+
+    let ans = model.ask_many(&lines);
+    let bound_units = usize::from_str_radix(&model.ask(&format!("sv {:x}", c.vol)), 16).unwrap();
+    let bound = bound_units as f64 / 2000.0;
+    for (chk, a) in chks.iter().zip(ans.iter()) {
+        match chk {
+            Chk::None => {}
+            Chk::Wait { ev, frames, fc } => {
+                let t: Vec<&str> = a.split(' ').collect();
+                let mf = usize::from_str_radix(t[0], 16).unwrap();
+                let mfc = usize::from_str_radix(t[1], 16).unwrap();
+                if let Some(r) = rep.as_deref_mut() {
+                    r.eval();
+                }
+                if t[4] != "1" {
+                    return Some(dis(
+                        Kind::ModelMismatch,
+                        "C19/frame-pos-hypothesis",
+                        Some(*ev),
+                        format!("event #{}: the f64 sample index is not within [q-1, q] of the rational index or not capped at spf", ev),
+                        a.clone(),
+                        "PosOk".into(),
+                    ));
+                }
+                if mfc != *fc || mf != *frames {
+                    return Some(dis(
+                        Kind::ModelMismatch,
+                        "C19/frame-clocks",
+                        Some(*ev),
+                        format!("event #{}: (frames passed, frame_clocks) after the event", ev),
+                        format!("({}, {})", frames, fc),
+                        format!("({}, {})", mf, mfc),
+                    ));
+                }
+            }
+            Chk::Pop { ev, codes, bad_value, spec } => {
+                let t: Vec<&str> = a.split(' ').collect();
+                let got = rle(codes);
+                // with volume 0 every level is the same sample: only the number of samples can be compared
+                let silent = c.vol == 0 || !c.beeper;
+                let model_text = if silent { collapse(t[0]) } else { t[0].to_string() };
+                if let Some(r) = rep.as_deref_mut() {
+                    r.eval();
+                    let runs = got.split(',').count();
+                    r.class(format!(
+                        "pop rate={} {:?} {} len={} level-runs={}",
+                        c.rate,
+                        c.policy,
+                        if spec.is_some() { "frame-batch" } else { "host-pop" },
+                        match codes.len() {
+                            0 => "0",
+                            n if n < spf => "<spf",
+                            n if n == spf => "spf",
+                            _ => ">spf",
+                        },
+                        match runs {
+                            0 | 1 => "1",
+                            2 => "2",
+                            3..=6 => "3-6",
+                            _ => ">6",
+                        }
+                    ));
+                }
+                if let Some((lv, rv)) = bad_value {
+                    let over = !(lv.is_finite() && rv.is_finite()) || lv.abs() as f64 > bound + 1e-6 || rv.abs() as f64 > bound + 1e-6;
+                    return Some(dis(
+                        if over { Kind::SpecViolated } else { Kind::ModelMismatch },
+                        if over { "C19/bounded" } else { "C19/sample-value" },
+                        Some(*ev),
+                        format!("event #{}: a popped sample is not one of the four beeper levels times volume/200", ev),
+                        format!("left={:e} right={:e}", lv, rv),
+                        format!("one of 0, 0.1, 0.5, 0.6 times {}/200 (|sample| <= {})", c.vol, bound),
+                    ));
+                }
+                if spec.is_some() && codes.len() != spf {
+                    return Some(dis(
+                        Kind::SpecViolated,
+                        "C19/count",
+                        Some(*ev),
+                        format!("event #{}: samples delivered for the frame that just ended (host drains at every boundary)", ev),
+                        format!("{}", codes.len()),
+                        format!("{} = floor({}/50)", spf, c.rate),
+                    ));
+                }
+                if let (Some(line), false) = (spec, silent) {
+                    let verdict = model.ask(line);
+                    if verdict != "ok" {
+                        return Some(dis(
+                            Kind::SpecViolated,
+                            "C19/edge",
+                            Some(*ev),
+                            format!("event #{}: frame batch vs speaker timeline [{}]: verdict {} (index of the first sample that is not a level the speaker had within one sample period of k/spf)", ev, line, verdict),
+                            got,
+                            format!("model: {}", t[0]),
+                        ));
+                    }
+                }
+                if got != model_text {
+                    return Some(dis(
+                        Kind::ModelMismatch,
+                        if spec.is_some() { "C19/frame-contents" } else { "C19/pop-contents" },
+                        Some(*ev),
+                        format!("event #{}: samples popped differ from the Lean model", ev),
+                        got,
+                        model_text,
+                    ));
+                }
+            }
+        }
+    }
+    if c.policy == Policy::Never && model.ask(&format!("sq {:x} {:x}", spf, final_len)) != "1" {
+        return Some(dis(
+            Kind::SpecViolated,
+            "C19/queue-bound",
+            None,
+            format!("queue length after {} frames without draining", total_frames),
+            format!("{}", final_len),
+            format!("< {}", 2 * spf),
+        ));
+    }
+    if let Some(r) = rep {
+        r.class(format!(
+            "{} rate={} policy={:?} vol={} beeper={} ay={} frames-with-writes={}",
+            if c.m128 { "128K" } else { "48K" },
+            c.rate,
+            c.policy,
+            match c.vol {
+                0 => "0",
+                100 => "100",
+                255 => "255",
+                _ => "other",
+            },
+            c.beeper as u8,
+            c.ay as u8,
+            frames_with_writes.min(3)
+        ));
+        r.count("rates", format!("{}", c.rate));
+        r.count("policies", format!("{:?}", c.policy));
+        r.count_n("frames", if c.m128 { "128K" } else { "48K" }, total_frames as u64);
+        r.count_n("samples_popped", "samples", total_popped as u64);
+    }
+    None
+}
+
+fn gen_case(r: &mut Rng, m128: bool, rate: usize, policy: Policy, frames: usize) -> Case {
+    let l = if m128 { 70908 } else { 69888 };
+    let spf = rate / 50;
+    let vol = match r.below(6) {
+        0 => 0,
+        1 => 255,
+        2 => r.u8(),
+        _ => 100,
+    };
+    let beeper = !r.chance(1, 8);
+    let ay = r.chance(1, 4);
+    let mut evs = vec![];
+    let mut fc = 0usize;
+    let mut done = 0usize;
+    let mut level = 0u8;
+    let style = r.below(3);
+    while done < frames {
+        let x = r.below(100);
+        if x < 8 {
+            // speaker / MIC write; sometimes a burst inside one sample period
+            let n = if r.chance(1, 5) { r.range(2, 4) } else { 1 };
+            for _ in 0..n {
+                level = match r.below(4) {
+                    0 => level ^ 0x10,
+                    1 => level ^ 0x08,
+                    2 => level ^ 0x18,
+                    _ => (r.u8() & 0x18) | (r.u8() & 7),
+                };
+                evs.push(Ev::Out(level));
+                // 4..12 clocks; the mirror of frame_clocks is kept by check_case, here an estimate is enough
+                fc += 8;
+                if n > 1 {
+                    let w = r.range(1, 20) as usize;
+                    evs.push(Ev::Wait(w));
+                    fc += w;
+                }
+            }
+        } else if x < 12 && policy == Policy::Sometimes {
+            evs.push(if r.bool() { Ev::Pop(r.range(0, (spf as u64 * 3) / 2) as usize) } else { Ev::Drain });
+        } else {
+            let w = match style {
+                0 => r.range(1, 30),
+                1 => r.range(1, 400),
+                _ => match r.below(10) {
+                    0 => r.range(400, 3000),
+                    1..=3 => r.range(30, 400),
+                    _ => r.range(1, 30),
+                },
+            } as usize;
+            // land exactly on the boundary now and then
+            let w = if fc < l && l - fc <= 3000 && r.chance(1, 4) { l - fc } else { w };
+            evs.push(Ev::Wait(w));
+            fc += w;
+        }
+        if fc >= l {
+            fc -= l;
+            done += 1;
+            if policy == Policy::Sometimes {
+                match r.below(4) {
+                    0 => evs.push(Ev::Drain),
+                    1 => evs.push(Ev::Pop(r.range(0, spf as u64) as usize)),
+                    2 => evs.push(Ev::Pop(r.range(spf as u64, 2 * spf as u64) as usize)),
+                    _ => {}
+                }
+            }
+        }
+    }
+    Case { m128, rate, vol, beeper, ay, policy, evs }
+}
+
+fn shrink(model: &mut Model, c: &Case, key: &str) -> Case {
+    let fails = |model: &mut Model, q: &Case| matches!(check_case(model, q, None), Some(d) if d.key == key);
+    let mut cur = c.clone();
+    if let Some(Disagreement { at: Some(i), key: k, .. }) = check_case(model, &cur, None) {
+        if k == key && i + 1 < cur.evs.len() {
+            let mut a = cur.clone();
+            a.evs.truncate(i + 1);
+            if fails(model, &a) {
+                cur = a;
+            }
+        }
+    }
+    // merge runs of waits, drop events
+    let mut budget = 300;
+    let mut chunk = (cur.evs.len() / 2).max(1);
+    loop {
+        let mut i = 0;
+        let mut changed = false;
+        while i < cur.evs.len() && budget > 0 {
+            let end = (i + chunk).min(cur.evs.len());
+            // replace the chunk by one wait of the same total length (keeps later frame clocks roughly in place)
+            let total: usize = cur.evs[i..end]
+                .iter()
+                .map(|e| match e {
+                    Ev::Wait(n) => *n,
+                    Ev::Out(_) => 8,
+                    _ => 0,
+                })
+                .sum();
+            let mut cand = cur.clone();
+            cand.evs.splice(i..end, if total > 0 && end - i > 1 { vec![Ev::Wait(total)] } else { vec![] });
+            budget -= 1;
+            if cand.evs.len() < cur.evs.len() && fails(model, &cand) {
+                cur = cand;
+                changed = true;
+            } else {
+                i = end;
+            }
+        }
+        if budget == 0 || (chunk == 1 && !changed) {
+            break;
+        }
+        if !changed || chunk > 1 {
+            chunk = (chunk / 2).max(1);
+        }
+    }
+    for (f, v) in [(0usize, 0u8), (1, 0), (2, 0)] {
+        let mut a = cur.clone();
+        match f {
+            0 => a.ay = false,
+            1 => a.beeper = true,
+            _ => a.vol = 100,
+        }
+        let _ = v;
+        if a != cur && fails(model, &a) {
+            cur = a;
+        }
+    }
+    cur
+}
+
+// ------------------------------------------------------------------ part B: real Z80 programs
+
+#[derive(Clone, Debug, PartialEq)]
+struct ProgCase {
+    m128: bool,
+    rate: usize,
+    /// delay loop count between speaker toggles (B register of DJNZ, outer loop count)
+    delay: u8,
+    frames: usize,
+}
+
+impl ProgCase {
+    fn text(&self) -> String {
+        format!("prog m128={} rate={} delay={} frames={}", self.m128 as u8, self.rate, self.delay, self.frames)
+    }
+    fn parse(s: &str) -> Option<ProgCase> {
+        let mut it = s.split_whitespace();
+        if it.next()? != "prog" {
+            return None;
+        }
+        let mut c = ProgCase { m128: false, rate: 44100, delay: 100, frames: 6 };
+        for kv in it {
+            let (k, v) = kv.split_once('=')?;
+            match k {
+                "m128" => c.m128 = v == "1",
+                "rate" => c.rate = v.parse().ok()?,
+                "delay" => c.delay = v.parse().ok()?,
+                "frames" => c.frames = v.parse().ok()?,
+                _ => return None,
+            }
+        }
+        Some(c)
+    }
+}
+
+/// Runs the toggling program for `frames` calls of emulate_frames, draining after each; returns per call
+/// (count, edge sample indices, frame clock at return).
+fn run_prog(c: &ProgCase) -> Result<Vec<(usize, Vec<usize>, usize)>, String> {
+    let mut cfg = Cfg::new(c.m128);
+    cfg.sound = true;
+    cfg.rate = c.rate;
+    let res = catch_unwind(AssertUnwindSafe(|| {
+        let mut e = emu(&cfg);
+        // 0x8000: LD A,0x10 ; loop: OUT (0xFE),A ; XOR 0x10 ; LD B,delay ; d: DJNZ d ; LD B,delay ; d2: DJNZ d2 ; JR loop
+        let prog = [0x3E, 0x10, 0xD3, 0xFE, 0xEE, 0x10, 0x06, c.delay, 0x10, 0xFE, 0x06, c.delay, 0x10, 0xFE, 0x18, 0xF2];
+        for (i, b) in prog.iter().enumerate() {
+            e.verif_write_mem(0x8000 + i as u16, *b, 0);
+        }
+        let cpu = e.verif_cpu();
+        cpu.regs.set_pc(0x8000);
+        cpu.regs.set_sp(0xFF00);
+        cpu.regs.set_iff1(false);
+        // start every run at frame clock 0 with an empty queue
+        let rest = if c.m128 { 70908 } else { 69888 } - e.verif_frame_clocks();
+        e.verif_wait(rest);
+        while e.next_audio_sample().is_some() {}
+        assert!(e.have_sound());
+        let mut out = vec![];
+        let mut prev = 0usize;
+        for _ in 0..c.frames {
+            let _ = e.emulate_frames(std::time::Duration::from_secs(1));
+            let mut n = 0usize;
+            let mut edges = vec![];
+            while let Some(s) = e.next_audio_sample() {
+                let code = decode(s.left, s.right, 100, true).unwrap_or(9);
+                if code != prev {
+                    edges.push(n);
+                    prev = code;
+                }
+                n += 1;
+            }
+            out.push((n, edges, e.verif_frame_clocks()));
+        }
+        out
+    }));
+    res.map_err(|_| "panic".to_string())
+}
+
+fn check_prog(model: &mut Model, c: &ProgCase, reference: Option<&Vec<(usize, Vec<usize>, usize)>>, mut rep: Option<&mut Report>) -> Option<Disagreement> {
+    let _ = model;
+    let spf = c.rate / 50;
+    let l = if c.m128 { 70908 } else { 69888 } as f64;
+    let got = match run_prog(c) {
+        Ok(g) => g,
+        Err(e) => return Some(dis(Kind::SpecViolated, "C19/panic", None, "emulate_frames panicked".into(), e, "no panic".into())),
+    };
+    for (i, (n, edges, _)) in got.iter().enumerate() {
+        if let Some(r) = rep.as_deref_mut() {
+            r.eval();
+        }
+        if *n != spf {
+            return Some(dis(
+                Kind::SpecViolated,
+                "C19/count",
+                Some(i),
+                format!("emulate_frames call #{} (FrameCount(1), host drains after every call): samples delivered", i),
+                format!("{}", n),
+                format!("{} = floor({}/50)", spf, c.rate),
+            ));
+        }
+        if let Some(rf) = reference {
+            // the same program at 384 kHz gives the write times with 9-clock resolution
+            let ref_spf = 384000 / 50;
+            let ref_times: Vec<f64> = rf[i].1.iter().map(|k| *k as f64 * l / ref_spf as f64).collect();
+            let tol = l / spf as f64 + l / ref_spf as f64 + 40.0;
+            let pulse = ref_times.windows(2).map(|w| w[1] - w[0]).fold(f64::MAX, f64::min);
+            for k in edges {
+                let t = *k as f64 * l / spf as f64;
+                if !ref_times.iter().any(|rt| (rt - t).abs() <= tol) {
+                    return Some(dis(
+                        Kind::SpecViolated,
+                        "C19/edge",
+                        Some(i),
+                        format!("call #{}: speaker edge at sample {} of {} (frame clock {:.0}) has no port write within one sample period", i, k, spf, t),
+                        format!("edge at clock {:.0}", t),
+                        format!("a write at one of {:?} (±{:.0})", ref_times.iter().map(|x| *x as usize).take(12).collect::<Vec<_>>(), tol),
+                    ));
+                }
+            }
+            // pulses longer than two sample periods must all show
+            if pulse > 2.0 * l / spf as f64 + 80.0 && edges.len() != rf[i].1.len() {
+                return Some(dis(
+                    Kind::SpecViolated,
+                    "C19/edge",
+                    Some(i),
+                    format!("call #{}: number of speaker edges in the frame", i),
+                    format!("{}", edges.len()),
+                    format!("{} (as at 384 kHz; shortest pulse {:.0} clocks)", rf[i].1.len(), pulse),
+                ));
+            }
+        }
+    }
+    if let Some(r) = rep {
+        let e: usize = got.iter().map(|g| g.1.len()).sum();
+        r.class(format!("prog {} rate={} delay={} edges>0={}", if c.m128 { "128K" } else { "48K" }, c.rate, c.delay, (e > 0) as u8));
+    }
+    None
+}
+
+// ------------------------------------------------------------------ part C: AY sounding through the emulator
+
+#[derive(Clone, Debug, PartialEq)]
+struct AyCase {
+    rate: usize,
+    frames: usize,
+}
+
+fn check_ay(model: &mut Model, c: &AyCase, rep: Option<&mut Report>) -> Option<Disagreement> {
+    let _ = model;
+    let mut cfg = Cfg::new(true);
+    cfg.sound = true;
+    cfg.ay = true;
+    cfg.rate = c.rate;
+    let spf = c.rate / 50;
+    let res = catch_unwind(AssertUnwindSafe(|| {
+        let mut e = emu(&cfg);
+        for (r, v) in [(0u8, 0x7Du8), (1, 0), (7, 0x3E), (8, 0x0F)] {
+            e.verif_write_io(0xFFFD, r);
+            e.verif_write_io(0xBFFD, v);
+        }
+        let mut worst = 0.0f32;
+        let mut finite = true;
+        let mut counts = vec![];
+        for _ in 0..c.frames {
+            let rest = 70908 - e.verif_frame_clocks();
+            e.verif_wait(rest);
+            let mut n = 0;
+            while let Some(s) = e.next_audio_sample() {
+                finite &= s.left.is_finite() && s.right.is_finite();
+                worst = worst.max(s.left.abs()).max(s.right.abs());
+                n += 1;
+            }
+            counts.push(n);
+        }
+        (worst, finite, counts)
+    }));
+    let (worst, finite, counts) = match res {
+        Ok(x) => x,
+        Err(_) => return Some(dis(Kind::SpecViolated, "C19/panic", None, "panic with the AY sounding".into(), "panic".into(), "no panic".into())),
+    };
+    if let Some(r) = rep {
+        r.eval();
+        r.class(format!("ay-sounding rate={}", c.rate));
+    }
+    // beeper 0.6 + AY: 16 is the bound of the rational analysis of the AY filter chain incl. the DC filter (see C18)
+    let bound = (0.6 + 16.0) * 100.0 / 200.0;
+    let low = 1_773_400 >= c.rate * 64;
+    if !finite || worst as f64 > bound {
+        return Some(dis(
+            Kind::SpecViolated,
+            if low { "C19/bounded.ay-low-rate" } else { "C19/bounded" },
+            None,
+            format!("128K, AY tone A (TP=125, volume 15) at {} Hz, {} frames drained at every boundary", c.rate, c.frames),
+            format!("max |sample| = {:e}, finite = {}", worst, finite),
+            format!("finite and |sample| <= {} (volume 100/200 x (beeper 0.6 + AY chain bound 16))", bound),
+        ));
+    }
+    if counts.iter().any(|n| *n != spf) {
+        return Some(dis(Kind::SpecViolated, "C19/count", None, "frames with the AY sounding".into(), format!("{:?}", counts), format!("{} each", spf)));
+    }
+    None
+}
+
+fn record(model: &mut Model, rep: &mut Report, text: String, d: Disagreement) {
+    if rep.has_key(&d.key) {
+        rep.count("repeat_violations", d.key.clone());
+        return;
+    }
+    let _ = model;
+    rep.violation(Violation {
+        kind: d.kind,
+        key: d.key.clone(),
+        what: format!("[{}] {}: real code {} / expected {}", if text.len() > 600 { format!("{}…", &text[..600]) } else { text.clone() }, d.what, d.implementation, d.expected),
+        correspondence: "corr.C19 (Model.Mixer process/newFrame/pop + Machine.wait/out vs ZXMixer + wait_internal/write_io; Spec.Mixer adjudicating)".into(),
+        case: J::obj(vec![("text", J::s(text))]),
+        implementation: d.implementation.clone(),
+        expected: d.expected.clone(),
+    });
+}
+
+pub fn run(o: &Opts) -> Report {
     let mut rep = Report::new("C19");
-    rep.notes.push("not built yet".into());
+    rep.rule = "(A) hook-driven schedules on a real Emulator (48K and 128K, sound on): random waits (1..30 CPU-like, up to 400, up to 3000, \
+some landing exactly on the frame end) interleaved with OUTs to port 0xFE (ear/mic toggles, bursts inside one sample period) at 7 sample \
+rates x 3 host policies (drain at every boundary / random pops and drains / never) x volumes 0..255 x beeper on/off x AY enabled (silent); \
+every popped sample is decoded to its beeper level and compared with the Lean model; the spec adjudicates: exactly floor(rate/50) samples \
+per frame (always), queue < 2*spf (never), every sample equals a speaker level within one sample period of k/spf, |sample| <= 0.6*vol/200. \
+(B) a real Z80 program toggling the speaker, run by emulate_frames (FrameCount(1)) and drained after every call: counts exactly, edge times \
+against the same program at 384 kHz. (C) AY tone sounding at 8000/44100 Hz: finite, bounded, counts. \
+distinct = (machine, rate, policy, volume class, beeper, ay, frames with writes) classes"
+        .into();
+    let mut model = Model::spawn(&o.model, "C19");
+
+    if let Some(text) = &o.replay {
+        rep.sample(J::s(text.clone()));
+        if let Some(c) = Case::parse(text) {
+            if let Some(d) = check_case(&mut model, &c, Some(&mut rep)) {
+                let small = shrink(&mut model, &c, &d.key.clone());
+                let d2 = check_case(&mut model, &small, None).filter(|x| x.key == d.key).unwrap_or(d);
+                record(&mut model, &mut rep, small.text(), d2);
+            }
+        } else if let Some(c) = ProgCase::parse(text) {
+            let reference = run_prog(&ProgCase { rate: 384000, ..c.clone() }).ok();
+            if let Some(d) = check_prog(&mut model, &c, reference.as_ref(), Some(&mut rep)) {
+                record(&mut model, &mut rep, c.text(), d);
+            }
+        } else if let Some(rest) = text.strip_prefix("aysound rate=") {
+            let c = AyCase { rate: rest.trim().parse().unwrap_or(8000), frames: 6 };
+            if let Some(d) = check_ay(&mut model, &c, Some(&mut rep)) {
+                record(&mut model, &mut rep, text.clone(), d);
+            }
+        } else {
+            rep.notes.push("unparsable replay case".into());
+        }
+        return rep;
+    }
+
+    // (A)
+    let mut rng = Rng::new(o.seed);
+    let mut pending: Option<(Case, Disagreement)> = None;
+    let reps = o.n(1, 20);
+    let mut first = true;
+    for rep_i in 0..reps {
+        for rate in RATES {
+            for policy in [Policy::Always, Policy::Sometimes, Policy::Never] {
+                for m128 in [false, true] {
+                    let mut r = rng.fork();
+                    let frames = if rate >= 96000 { 3 } else { 5 } + rep_i as usize % 2;
+                    let c = gen_case(&mut r, m128, rate, policy, frames);
+                    if first {
+                        let t = c.text();
+                        rep.sample(J::s(if t.len() > 400 { format!("{}…", &t[..400]) } else { t }));
+                        first = false;
+                    }
+                    if let Some(d) = check_case(&mut model, &c, Some(&mut rep)) {
+                        if d.kind == Kind::ModelMismatch {
+                            rep.count("undecided_mismatches", d.key.clone());
+                            if pending.is_none() {
+                                pending = Some((c.clone(), d));
+                            }
+                        } else if !rep.has_key(&d.key) {
+                            let small = shrink(&mut model, &c, &d.key.clone());
+                            let d2 = check_case(&mut model, &small, None).filter(|x| x.key == d.key).unwrap_or(d);
+                            record(&mut model, &mut rep, small.text(), d2);
+                        } else {
+                            rep.count("repeat_violations", d.key.clone());
+                        }
+                    }
+                }
+            }
+        }
+    }
+    // (B)
+    for m128 in [false, true] {
+        for delay in [40u8, 150] {
+            let reference = run_prog(&ProgCase { m128, rate: 384000, delay, frames: 6 }).ok();
+            for rate in RATES {
+                let c = ProgCase { m128, rate, delay, frames: 6 };
+                if let Some(d) = check_prog(&mut model, &c, reference.as_ref(), Some(&mut rep)) {
+                    record(&mut model, &mut rep, c.text(), d);
+                }
+            }
+        }
+    }
+    rep.sample(J::s(ProgCase { m128: false, rate: 44100, delay: 150, frames: 6 }.text()));
+    // (C)
+    for rate in [8000usize, 44100, 384000] {
+        let c = AyCase { rate, frames: 6 };
+        if let Some(d) = check_ay(&mut model, &c, Some(&mut rep)) {
+            record(&mut model, &mut rep, format!("aysound rate={}", rate), d);
+        }
+    }
+    if let Some((c, d)) = pending {
+        // only a spec violation of the mixer itself explains a mixer mismatch (not the AY low-rate finding)
+        if rep.violations.iter().any(|v| v.kind == Kind::SpecViolated && ["C19/count", "C19/edge", "C19/queue-bound", "C19/bounded"].contains(&v.key.as_str())) {
+            rep.notes.push(format!("code/model mismatch {} attributed to the spec violation(s) reported", d.key));
+        } else {
+            let small = shrink(&mut model, &c, &d.key.clone());
+            let d2 = check_case(&mut model, &small, None).filter(|x| x.key == d.key).unwrap_or(d);
+            record(&mut model, &mut rep, small.text(), d2);
+        }
+    }
+    rep.extra.push(("model_requests".into(), J::I(model.requests as i64)));
     rep
 }
